@@ -82,12 +82,6 @@ Lemma tokens_insert_dirs : forall a n sp, a_token_directives (tokens_insert a n 
 Proof. intros. apply tokens_insert_frame. Qed.
 
 (* ---- the invariant -------------------------------------------------------------- *)
-Definition dirs_in_range (a : gast) : Prop :=
-  forall idx, In idx (a_token_directives a) -> idx < List.length (a_tokens a).
-
-(* the state knows exactly the names of D as %token-declared *)
-Definition tok_inv (D : str -> bool) (a : gast) : Prop :=
-  dirs_in_range a /\ forall x, is_declared a x = D x.
 
 Lemma existsb_eqb_false : forall k l, ~ In k l -> existsb (Nat.eqb k) l = false.
 Proof.
